@@ -33,6 +33,8 @@ ReqStep(r) ==
     [] r = "ghbah6" -> [op |-> "ghba", t |-> 1, addr |-> 6, family |-> 6]            \* listed, short text form
     [] r = "ghbal6" -> [op |-> "ghba", t |-> 1, addr |-> 7, family |-> 6, long |-> 1] \* listed, long text form
     [] r = "ghbam6" -> [op |-> "ghba", t |-> 1, addr |-> 8, family |-> 6, long |-> 1] \* long text form, not listed
+    [] r = "ghbax6" -> [op |-> "ghba", t |-> 1, addr |-> 9, family |-> 6, long |-> 2] \* every hexadecimal digit in the reverse-map name
+    [] r = "gnix6" -> [op |-> "gni", t |-> 1, addr |-> 3, family |-> 6, long |-> 2]
     [] r = "gnih4" -> [op |-> "gni", t |-> 1, addr |-> 515, family |-> 4]
     [] r = "gnil6" -> [op |-> "gni", t |-> 1, addr |-> 7, family |-> 6, long |-> 1]
 (* replies go to the latest transmission for the request's name that has not been answered yet
